@@ -144,7 +144,7 @@ theorem aeval_sound {c : Consts} {ρ : Nat → Nat} (h : Abs c ρ) :
   induction e with
   | lit n => intro v hv; simp [aeval] at hv; simp [MExpr.eval, hv]
   | reg r => intro v hv; simp only [aeval] at hv; simp [MExpr.eval, h r v hv]
-  | add a b iha ihb | sub a b iha ihb | mul a b iha ihb | eq a b iha ihb | ne a b iha ihb
+  | add a b iha ihb | sub a b iha ihb | mul a b iha ihb | wmul a b iha ihb | eq a b iha ihb | ne a b iha ihb
   | lt a b iha ihb | le a b iha ihb | gt a b iha ihb | ge a b iha ihb | lor a b iha ihb | land a b iha ihb =>
     intro v hv
     simp only [aeval, bind, Option.bind] at hv
